@@ -156,6 +156,10 @@ def catalogue(al):
     add("prefix", "chain.star", lambda al, s, c: li.chain.star(iter([[9.0] * c["a"], s])))
     add("prefix", "zero_pad left", lambda al, s, c: S(al.zero_pad(s, left=c["a"])))
     add("prefix", "Stream(a, b) chaining", lambda al, s, c: S([9.0] * c["a"], s))
+    # a mixer event that starts `a` samples later: the silence before it needs nothing of it
+    add("prefix", "Streamix late event", lambda al, s, c: (lambda m: (m.add(c["a"], s), m)[1])(al.Streamix()))
+    add("prefix", "Streamix(keep) late event after another",
+        lambda al, s, c: (lambda m: (m.add(0, [9.0] * c["a"]), m.add(c["a"], s), m)[2])(al.Streamix(True)))
     # ---- overlap-add -------------------------------------------------------------------------------------
     add("ola", "overlap_add.list(blocks)", lambda al, s, c: al.overlap_add.list(
         (list(b) for b in al.blocks(s, c["a"], c["b"])), hop=c["b"]))
